@@ -27,9 +27,10 @@ open PV PV.Dp
 /-- Every state a contract history reaches satisfies the invariants the step theorems assume. -/
 theorem reachable {fp : FdlParams} (hfp : FpOk fp) {slots : List (Option Peripheral)}
     (hinit : InitOk fp slots) (gr : Bool) (ops : List Op) :
-    ∀ {g : G}, grun fp (G.init slots gr) ops = .ok g → Inv fp g ∧ Inv8 g := by
-  suffices H : ∀ (ops : List Op) (g0 : G), Inv fp g0 → Inv8 g0 → ∀ g, grun fp g0 ops = .ok g → Inv fp g ∧ Inv8 g by
-    intro g h; exact H ops _ (inv_init hinit gr) (inv8_init hinit gr) g h
+    ∀ {g : G}, grun fp (G.init slots gr) ops = .ok g → Inv fp g ∧ (g.tainted = false → Inv8 g) := by
+  suffices H : ∀ (ops : List Op) (g0 : G), Inv fp g0 → (g0.tainted = false → Inv8 g0) →
+      ∀ g, grun fp g0 ops = .ok g → Inv fp g ∧ (g.tainted = false → Inv8 g) by
+    intro g h; exact H ops _ (inv_init hinit gr) (fun _ => inv8_init hinit gr) g h
   intro ops
   induction ops with
   | nil => intro g0 h1 h2 g h; simp only [grun, Res3.ok.injEq] at h; subst h; exact ⟨h1, h2⟩
@@ -37,7 +38,9 @@ theorem reachable {fp : FdlParams} (hfp : FpOk fp) {slots : List (Option Periphe
     intro g0 h1 h2 g h
     simp only [grun] at h
     cases hs : gstep fp g0 op with
-    | ok g1 => rw [hs] at h; exact ih g1 (inv_step hfp h1 op hs) (inv8_step hfp h1 h2 op hs) g h
+    | ok g1 =>
+      rw [hs] at h
+      exact ih g1 (inv_step hfp h1 op hs) (fun hu => inv8_step hfp h1 (h2 (tainted_mono op hs hu)) op hs hu) g h
     | panic => rw [hs] at h; cases h
     | hang => rw [hs] at h; cases h
     | refused => rw [hs] at h; cases h
@@ -118,13 +121,14 @@ def same_fcb_only_retransmit_full : Prop :=
   ∀ (fp : FdlParams), FpOk fp → ∀ (slots : List (Option Peripheral)), InitOk fp slots →
   ∀ (gr : Bool) (ops : List Op) (g g' : G) (now : Int) (hp : Bool) (i : Nat) (hd : Header) (pdu : Bytes)
     (k : RKind) (f0 : FrameCountBit),
-    grun fp (G.init slots gr) ops = .ok g → gstep fp g (.tx now hp) = .ok g' → g'.o = .sent i hd pdu →
+    grun fp (G.init slots gr) ops = .ok g → g.tainted = false → gstep fp g (.tx now hp) = .ok g' →
+    g'.o = .sent i hd pdu →
     (g.sg i).expectFirst = false → (g.sg i).last = some (k, f0) → fcbOf hd = f0 → reqKind hd = k
 
 theorem same_fcb_only_retransmit_full_holds : same_fcb_only_retransmit_full := by
-  intro fp hfp slots hinit gr ops g g' now hp i hd pdu k f0 hrun hstep ho hnf hl hsame
+  intro fp hfp slots hinit gr ops g g' now hp i hd pdu k f0 hrun hu hstep ho hnf hl hsame
   obtain ⟨hI, h8⟩ := reachable hfp hinit gr ops hrun
-  exact (same_fcb_only_retransmit hfp hI h8 hstep ho hnf hl hsame).2
+  exact (same_fcb_only_retransmit hfp hI (h8 hu) hstep ho hnf hl hsame).2
 
 /-- `retry_bound`: towards a live peripheral a request is transmitted at most `1 + max_retry_limit`
 times in a row without any reply. -/
